@@ -318,7 +318,7 @@ def run_other(case):
 
 # ---- driver ------------------------------------------------------------------------------------
 def generate(rng, tier):
-    n = 300 if tier == "quick" else 4000
+    n = 450 if tier == "quick" else 4000
     base1 = K1.generate(rng, "quick")
     base9 = K9.generate(rng, "quick")
     base2 = G.generate(rng, "quick")
